@@ -624,7 +624,25 @@ func callbackPipeline(c *Check) {
 				sc := staticCallee(cl.Common())
 				return sc != nil && sc.String() == "(time.Time).Before" && strings.HasSuffix(trimOrg(r.Of(cl.Call.Args[1]).String()), ".after")
 			}
-			miss := blockReachesInstr(nl, isReturn, func(in ssa.Instruction) bool { return in == ssa.Instruction(hand) || isFilter(in) })
+			// a path that reports an error on the callback's error channel is
+			// not a silent drop (whether every such report is kept is C15's
+			// error-handoff rule)
+			isErrReport := func(in ssa.Instruction) bool {
+				switch x := in.(type) {
+				case *ssa.Send:
+					return isErrorType(x.X.Type())
+				case *ssa.Select:
+					for _, st := range x.States {
+						if st.Dir == types.SendOnly && st.Send != nil && isErrorType(st.Send.Type()) {
+							return true
+						}
+					}
+				}
+				return false
+			}
+			miss := blockReachesInstr(nl, isReturn, func(in ssa.Instruction) bool {
+				return in == ssa.Instruction(hand) || isFilter(in) || isErrReport(in)
+			})
 			c.Cond(miss == nil, "callback-pipeline", name+": every coalesced event reaches the correlator", p.InstrPos(co), "the only way around the hand-over is the After filter", "a coalesced event can be dropped without being handed to the correlator and without an error (a path around the hand-over other than the After filter)")
 		}
 	}
